@@ -3,7 +3,8 @@
 From Coq Require Import ZArith List Bool Lia.
 From PB Require Import lib.SumZ lib.PySlice lib.Arr C11.DtD C11.Table gen.GenBands C11.Banded C11.History
                        C11.Uses C11.UsesProofs C11.PSplineSys C11.PSplineSysProofs
-                       C11.Effects C11.EffectsProofs gen.GenBandEffects.
+                       C11.Effects C11.EffectsProofs gen.GenBandEffects
+                       C11.Sys2D C11.Sys2DProofs gen.GenBandEffects2D.
 Import ListNotations.
 Open Scope Z_scope.
 
@@ -409,3 +410,113 @@ Example C11_requests_history_nonvacuous :
   | None => False
   end.
 Proof. vm_compute. repeat split. Qed.
+
+(* ---- the 2-D penalized systems (C11/Sys2D.v): PenalizedSystem2D, WhittakerSystem2D without
+   eigendecomposition, PSpline2D.  Their penalty is built FROM the 1-D penalty by Kronecker products;
+   reset_diagonals is run as the sequence of effects extracted from the current source
+   (gen/GenBandEffects2D.v: reset2d_effects), every value read from where the source reads it. ---- *)
+
+(* diff_penalty_matrix(N, d) -- the full bands of diff_penalty_diagonals placed on their diagonals -- is
+   D'D for every N > d (and raises for N <= d). *)
+Theorem C11_penalty_matrix_exact : forall N d : nat, (d < N)%nat ->
+  exists P, pen1 N d = Some P /\ forall i j, 0 <= i < Z.of_nat N -> 0 <= j < Z.of_nat N -> P i j = DtD d N i j.
+Proof. exact pen1_exact. Qed.
+Print Assumptions C11_penalty_matrix_exact.
+
+(* The extracted order is one the theorems are proved for, and it validates and builds everything
+   before the first assignment. *)
+Theorem C11_reset2d_order_checked :
+  effects2_ok reset2d_effects = true /\ checks_first2 reset2d_effects = true.
+Proof. split; vm_compute; reflexivity. Qed.
+Print Assumptions C11_reset2d_order_checked.
+
+(* An accepted 2-D reset is a function of the REQUEST ALONE: whatever the object was (whatever its
+   previous orders, lams, penalty), the result is the directly built system.  Nothing of the old state --
+   in particular no term computed for an earlier difference order -- survives. *)
+Theorem C11_reset2d_is_function_of_request : forall (R C : nat) (q : req2) (o s : sys2),
+  fresh2 R C q = Some s -> exec2 R C q reset2d_effects frame0 o = Done2 s.
+Proof. intros R C q o s. exact (exec2_accepted R C q _ o s (proj1 C11_reset2d_order_checked)). Qed.
+Print Assumptions C11_reset2d_is_function_of_request.
+
+(* A rejected 2-D request (lam <= 0, diff_order < 1, wrong length, diff_order >= size on either axis)
+   leaves the whole object as it was. *)
+Theorem C11_reset2d_rejected_noop : forall (R C : nat) (q : req2) (o : sys2),
+  fresh2 R C q = None -> exec2 R C q reset2d_effects frame0 o = Raised2 o.
+Proof.
+  intros R C q o E.
+  destruct (exec2_rejected R C q _ o (proj1 C11_reset2d_order_checked) E) as (o' & H1 & _ & H3).
+  rewrite H1, (H3 (proj2 C11_reset2d_order_checked)). reflexivity.
+Qed.
+Print Assumptions C11_reset2d_rejected_noop.
+
+Theorem C11_constructor2d_is_fresh : forall (R C : nat) (q : req2),
+  einit2 R C reset2d_effects q = fresh2 R C q.
+Proof. intros R C q. exact (einit2_is_fresh R C q _ (proj1 C11_reset2d_order_checked)). Qed.
+Print Assumptions C11_constructor2d_is_fresh.
+
+(* Any history -- accepted and rejected requests changing the order on one axis, on both, or only lam;
+   add_diagonal / solve / reset_diagonal writing into the penalty in place -- followed by a request the
+   directly built system accepts, gives exactly the directly built system. *)
+Theorem C11_history2d : forall (R C : nat) (o0 : sys2) (ops : list rop2) (q : req2) (s : sys2),
+  fresh2 R C q = Some s ->
+  exec2 R C q reset2d_effects frame0 (rrun2 R C reset2d_effects o0 ops) = Done2 s.
+Proof. intros R C o0 ops q s. exact (history2 R C _ o0 ops q s (proj1 C11_reset2d_order_checked)). Qed.
+Print Assumptions C11_history2d.
+
+(* After ANY sequence of requests, each accepted or rejected, the object IS the system built directly
+   with the last accepted request. *)
+Theorem C11_requests_history2d : forall (R C : nat) (q0 : req2) (qs : list req2) (s0 : sys2),
+  einit2 R C reset2d_effects q0 = Some s0 ->
+  rrun2 R C reset2d_effects s0 (map R2Req qs) = last_ok2 R C s0 qs.
+Proof.
+  intros R C q0 qs s0 H.
+  exact (proj2 (requests_history2 R C _ q0 qs s0 (proj1 C11_reset2d_order_checked) H) (proj2 C11_reset2d_order_checked)).
+Qed.
+Print Assumptions C11_requests_history2d.
+
+(* The directly built 2-D system: penalty[(i1,j1),(i2,j2)] = lam_r (D_r'D_r)[i1,i2] [j1=j2] +
+   lam_c [i1=i2] (D_c'D_c)[j1,j2] on the row-major flattened index, for the orders and lams of the
+   request, and main_diagonal is its diagonal. *)
+Theorem C11_penalty2d_is_kron_DtD : forall (R C : nat) (q : req2) (s : sys2), fresh2 R C q = Some s ->
+  exists dr dc lr lc,
+    check_pos (r_d q) = Some (dr, dc) /\ check_pos (r_lam q) = Some (lr, lc) /\
+    z_dr s = dr /\ z_dc s = dc /\ z_lr s = lr /\ z_lc s = lc /\
+    (Z.to_nat dr < R)%nat /\ (Z.to_nat dc < C)%nat /\
+    nr (z_pen s) = Z.of_nat R * Z.of_nat C /\ nc (z_pen s) = Z.of_nat R * Z.of_nat C /\
+    (forall i1 j1 i2 j2, 0 <= i1 < Z.of_nat R -> 0 <= i2 < Z.of_nat R -> 0 <= j1 < Z.of_nat C -> 0 <= j2 < Z.of_nat C ->
+       get (z_pen s) (i1 * Z.of_nat C + j1) (i2 * Z.of_nat C + j2)
+       = lr * DtD (Z.to_nat dr) R i1 i2 * delta j1 j2 + delta i1 i2 * (lc * DtD (Z.to_nat dc) C j1 j2)) /\
+    (forall k, z_maind s k = get (z_pen s) k k).
+Proof. exact fresh2_penalty. Qed.
+Print Assumptions C11_penalty2d_is_kron_DtD.
+
+(* The order matters: with the order of /repo 4a1c1fc (diff_order and lam stored before
+   diff_penalty_matrix can still raise) rejected requests change diff_order / lam. *)
+Theorem C11_late_validation_order2d_refuted :
+  match fresh2 5 6 ex2_q0 with
+  | Some s0 =>
+      fresh2 5 6 ex2_bad = None /\ fresh2 5 6 ex2_bad2 = None /\
+      z_dr (after2 (exec2 5 6 ex2_bad order2_4a1c1fc frame0 s0)) = 3 /\
+      z_dc (after2 (exec2 5 6 ex2_bad2 order2_4a1c1fc frame0 s0)) = 6 /\
+      z_lr (after2 (exec2 5 6 ex2_bad2 order2_4a1c1fc frame0 s0)) = 2 /\ z_dr s0 = 2 /\ z_lr s0 = 1
+  | None => False
+  end.
+Proof. exact strong_noop2_refuted. Qed.
+Print Assumptions C11_late_validation_order2d_refuted.
+
+(* non-vacuity: one-axis order changes (2 -> (2,3) -> (1,3)), a lam-only change, rejected requests
+   (lam 0; order too large for the 4 columns) and an in-place add_diagonal in between *)
+Example C11_history2d_nonvacuous :
+  let q0 := {| r_lam := [1]; r_d := [2] |} in
+  let q1 := {| r_lam := [4]; r_d := [2; 3] |} in
+  let bad := {| r_lam := [0]; r_d := [1; 3] |} in
+  let bad2 := {| r_lam := [2]; r_d := [1; 4] |} in
+  let q2 := {| r_lam := [4; 5]; r_d := [1; 3] |} in
+  match einit2 3 4 reset2d_effects q0, fresh2 3 4 q2 with
+  | Some s0, Some s2 =>
+      fresh2 3 4 bad = None /\ fresh2 3 4 bad2 = None /\
+      observe2 (rrun2 3 4 reset2d_effects s0 [R2Req q1; R2Req bad; R2AddDiag [7]; R2Req bad2; R2Req q2; R2Req bad]) = observe2 s2 /\
+      observe2 s2 <> observe2 (after2 (exec2 3 4 q1 reset2d_effects frame0 s0))
+  | _, _ => False
+  end.
+Proof. vm_compute. repeat split. discriminate. Qed.
